@@ -685,7 +685,7 @@ def model_run(program, resume_values=None, max_steps=64, repeats=()):
 # ---------------------------------------------------------------------------------------------
 # Generators
 
-VALUES = [0, 1, -3, 'a', 'bb', None, True, [1, 2], {'k': 'v'}, 2.5]
+VALUES = [0, 1, -3, 'a', 'bb', None, True, [1, 2], {'k': 'v'}, 2.5, '', [], {}, False, {'n': [1, {'deep': None}]}, 10 ** 20]
 
 
 def gen_value(rng):
